@@ -164,6 +164,8 @@ def gen_stack(rng):
         elif cur == "image_chw":
             w = rng.choice(["framestack", "monitor", "checknan"])
         elif cur == "dict":
+            w = rng.choice(["framestack", "normalize_dict", "extract_vec", "extract_img", "monitor", "checknan", "transpose"])
+        elif cur == "dict_t":  # Dict whose image entry is already channel-first
             w = rng.choice(["framestack", "normalize_dict", "extract_vec", "extract_img", "monitor", "checknan"])
         else:
             w = rng.choice(["monitor", "checknan"])
@@ -173,11 +175,11 @@ def gen_stack(rng):
         if w == "framestack" and cur == "image_hwc":
             cur = "image_chw"  # stacked along the last axis: no longer a channel-last image for VecTransposeImage
         if w == "transpose":
-            cur = "image_chw"
+            cur = "dict_t" if cur == "dict" else "image_chw"
         elif w == "extract_vec":
             cur = "box1"
         elif w == "extract_img":
-            cur = "image_hwc"
+            cur = "image_chw" if cur == "dict_t" else "image_hwc"
     n_ops = rng.randint(4, 14)
     ops = ["reset"]
     for _ in range(n_ops):
